@@ -29,7 +29,8 @@ def against_ledger(prog, rg, out):
     for name, d in out[1].items():
         if name not in final:
             continue
-        diffs = dsl.cmp_obj(d, final[name], F(1, 10**8) * k, F(1, 10**9), f"object {name}")
+        # (under a coarser storage unit -- configuration variants, tol_k -- ten decimals are 1e-7 umol per operation)
+        diffs = dsl.cmp_obj(d, final[name], F(1, 10**8) * k, F(1, 10**9) * F(prog.get('tol_k', 1)), f"object {name}")
         if diffs:
             fails.append('bake differs from eager execution: ' + diffs[0])
     return fails
